@@ -4,7 +4,7 @@ from cryptography import x509
 from cryptography.x509.oid import NameOID
 from cryptography.hazmat.primitives import hashes, serialization
 from cryptography.hazmat.primitives.asymmetric import rsa
-NAMES = ['idpA', 'idpA2', 'idpAenc', 'idpB', 'spX', 'spXenc1', 'spXenc2', 'spY', 'mallory', 'mdsigner']
+NAMES = ['idpA', 'idpA2', 'idpAenc', 'idpB', 'spX', 'spXenc1', 'spXenc2', 'spY', 'mallory', 'mdsigner', 'idpAexp']
 d = os.path.join(os.path.dirname(os.path.abspath(__file__)), '..', 'keys')
 for n in NAMES:
     kf = os.path.join(d, n + '.key'); cf = os.path.join(d, n + '.crt')
@@ -13,7 +13,7 @@ for n in NAMES:
     name = x509.Name([x509.NameAttribute(NameOID.COMMON_NAME, 'vp-' + n)])
     c = (x509.CertificateBuilder().subject_name(name).issuer_name(name).public_key(k.public_key())
          .serial_number(x509.random_serial_number())
-         .not_valid_before(datetime.datetime(2000, 1, 1)).not_valid_after(datetime.datetime(2100, 1, 1))
+         .not_valid_before(datetime.datetime(2000, 1, 1)).not_valid_after(datetime.datetime(2001, 1, 1) if n.endswith('exp') else datetime.datetime(2100, 1, 1))
          .sign(k, hashes.SHA256()))
     open(kf, 'wb').write(k.private_bytes(serialization.Encoding.PEM, serialization.PrivateFormat.TraditionalOpenSSL, serialization.NoEncryption()))
     open(cf, 'wb').write(c.public_bytes(serialization.Encoding.PEM))
